@@ -3632,7 +3632,7 @@ func (d *msgpackDecDriverBytes) DecodeInt64() (i int64) {
 	case mpUint32:
 		i = int64(uint64(bigen.Uint32(d.r.readn4())))
 	case mpUint64:
-		i = int64(bigen.Uint64(d.r.readn8()))
+		i = chkOvf.SignedIntV(bigen.Uint64(d.r.readn8()))
 	case mpInt8:
 		i = int64(int8(d.r.readn1()))
 	case mpInt16:
@@ -3730,6 +3730,8 @@ func (d *msgpackDecDriverBytes) DecodeFloat64() (f float64) {
 		f = float64(math.Float32frombits(bigen.Uint32(d.r.readn4())))
 	} else if d.bd == mpDouble {
 		f = math.Float64frombits(bigen.Uint64(d.r.readn8()))
+	} else if d.bd == mpUint64 {
+		f = float64(bigen.Uint64(d.r.readn8()))
 	} else {
 		f = float64(d.DecodeInt64())
 	}
@@ -7668,7 +7670,7 @@ func (d *msgpackDecDriverIO) DecodeInt64() (i int64) {
 	case mpUint32:
 		i = int64(uint64(bigen.Uint32(d.r.readn4())))
 	case mpUint64:
-		i = int64(bigen.Uint64(d.r.readn8()))
+		i = chkOvf.SignedIntV(bigen.Uint64(d.r.readn8()))
 	case mpInt8:
 		i = int64(int8(d.r.readn1()))
 	case mpInt16:
@@ -7766,6 +7768,8 @@ func (d *msgpackDecDriverIO) DecodeFloat64() (f float64) {
 		f = float64(math.Float32frombits(bigen.Uint32(d.r.readn4())))
 	} else if d.bd == mpDouble {
 		f = math.Float64frombits(bigen.Uint64(d.r.readn8()))
+	} else if d.bd == mpUint64 {
+		f = float64(bigen.Uint64(d.r.readn8()))
 	} else {
 		f = float64(d.DecodeInt64())
 	}
